@@ -268,6 +268,23 @@ pub struct Run {
     inconclusive: Option<String>,
 }
 
+/// the surroundings of the first byte at which two images differ
+pub fn first_diff(a: &str, b: &str) -> String {
+    let i = a.bytes().zip(b.bytes()).position(|(x, y)| x != y).unwrap_or(a.len().min(b.len()));
+    let cut = |s: &str| {
+        let mut from = i.saturating_sub(120);
+        while !s.is_char_boundary(from) {
+            from -= 1;
+        }
+        let mut to = (i + 200).min(s.len());
+        while !s.is_char_boundary(to) {
+            to -= 1;
+        }
+        s[from..to].to_string()
+    };
+    format!("first difference at byte {i}:\n   A: …{}…\n   B: …{}…", cut(a), cut(b))
+}
+
 pub fn truncate(s: &str, n: usize) -> String {
     if s.len() <= n {
         s.to_string()
